@@ -23,6 +23,7 @@ every generated case instead; Keccak-256 is not specified in Lean beyond the exe
 -/
 import DosModel.Proofs.Bls
 import DosModel.Proofs.Bn256ConcMont
+import DosModel.Proofs.Bn256ConcRedc
 import DosModel.Proofs.CodecChar
 import DosModel.Gen.BlsFacts
 import DosModel.Gen.CodecFacts
@@ -142,9 +143,10 @@ example : verify intOps 0 [] [0] = .accept := by decide   -- identity key, ident
 the limbs hold (`redc` output is < p for all inputs below R·p — `Proofs/Bn256ConcMont.redc_lt`,
 proved here on numbers; the limb-level `gfpMul` = `redc` is C10's theorem / correspondence). -/
 theorem emitted_coordinates_canonical (a : Nat) (ha : a < 2 ^ 256) :
-    (emitCoord a).length = 32 ∧ beNat (emitCoord a) < p ∧ beNat (emitCoord a) = montDecode a := by
+    (emitCoord a).length = 32 ∧ beNat (emitCoord a) < p ∧ beNat (emitCoord a) = montDecode a ∧
+    montDecode a = a * rInv % p := by
   have hlt := montDecode_lt a ha
-  refine ⟨be32_length _, ?_, beNat_be32 _ hlt⟩
+  refine ⟨be32_length _, ?_, beNat_be32 _ hlt, montDecode_spec a ha⟩
   rw [emitCoord, beNat_be32 _ hlt]; exact hlt
 
 /-- a G1 signature is 64 bytes x‖y, a non-identity G2 key is 129 bytes 0x01‖x.im‖x.re‖y.im‖y.re
@@ -186,8 +188,8 @@ theorem coordinate_splitters_invert (xm ym a b c d : Nat)
   obtain ⟨w1, w2, w3, w4⟩ := w
   refine ⟨?_, ?_, by decide⟩
   · simp only [sigToBigInt, marshalG1M, emitCoord, List.length_append, l]
-    rw [List.take_append_of_le_length (by rw [l]; exact Nat.le_refl _), List.take_of_length_le (by rw [l]; exact Nat.le_refl _),
-      List.drop_append_of_le_length (by rw [l]; exact Nat.le_refl _), List.drop_of_length_le (by rw [l]; exact Nat.le_refl _), e1]
+    rw [List.take_append_of_le_length (by simp [l]), List.take_of_length_le (by simp [l]),
+      List.drop_append_of_le_length (by simp [l]), List.drop_of_length_le (by simp [l]), e1]
     simp [e2]
   · have hl : (marshalG2M (some (a, b, c, d))).length = 129 := by
       simp [marshalG2M, emitCoord, be32_length]
